@@ -1,3 +1,59 @@
+//! C04 / C09 / C08: white-on-transparent renders of strokes, dashed strokes and curved fills,
+//! recorded as alpha maps for the region specifications (Stroke.tla, Dash.tla, Curve.tla).
+use crate::canvas::{parse_path, parse_style, parse_transform};
+use crate::util::*;
+use raqote::*;
 use serde_json::{json, Value};
-pub fn run(sc: &Value) -> Value { json!({"id": sc["id"], "outcome": "unimplemented"}) }
-pub fn drive(_fam: &str, _seed: u64, _n: usize) -> Vec<Value> { Vec::new() }
+
+pub fn run(sc: &Value) -> Value {
+    let w = int(&sc["w"]);
+    let h = int(&sc["h"]);
+    let den = den_of(sc, "den", 1.0);
+    let ctm = if sc.get("ctm").is_some() { parse_transform(&sc["ctm"]) } else { Transform::identity() };
+    let mut path = parse_path(&json!({"ops": sc["ops"]}), den);
+    if sc["rule"].as_str() == Some("EvenOdd") {
+        path.winding = Winding::EvenOdd;
+    }
+    let kind = sc["kind"].as_str().unwrap_or("stroke");
+    let white = Source::Solid(SolidSource { r: 255, g: 255, b: 255, a: 255 });
+    let mut dt = DrawTarget::new(w, h);
+    let mut extra = serde_json::Map::new();
+    let r = std::panic::catch_unwind(std::panic::AssertUnwindSafe(|| {
+        dt.set_transform(&ctm);
+        match kind {
+            "stroke" => {
+                let style = parse_style(&sc["style"], den);
+                dt.stroke(&path, &white, &style, &DrawOptions::new());
+            }
+            "fill" => dt.fill(&path, &white, &DrawOptions::new()),
+            "clip" => {
+                dt.push_clip(&path);
+                dt.set_transform(&Transform::identity());
+                dt.fill_rect(0., 0., w as f32, h as f32, &white, &DrawOptions::new());
+                dt.pop_clip();
+            }
+            _ => panic!("bad kind"),
+        }
+    }));
+    // diagnostics for the I-level dasher specification (not a verdict source)
+    if kind == "stroke" && sc["style"].get("dash").is_some() && sc["want_dash_path"].as_bool().unwrap_or(false) {
+        let style = parse_style(&sc["style"], den);
+        let flat = path.flatten(0.1);
+        if let Ok(d) = std::panic::catch_unwind(|| verif_dash_path(&flat, &style.dash_array, style.dash_offset)) {
+            let (ops, exact) = crate::pathfam::ops_1024(&d);
+            extra.insert("dash_ops".into(), ops);
+            extra.insert("dash_exact".into(), json!(exact));
+        }
+    }
+    let mut out = sc.as_object().unwrap().clone();
+    out.insert("outcome".into(), json!(if r.is_ok() { "ok" } else { "panic" }));
+    out.insert("pix".into(), pix(dt.get_data()));
+    for (k, v) in extra {
+        out.insert(k, v);
+    }
+    Value::Object(out)
+}
+
+pub fn drive(_fam: &str, _seed: u64, _n: usize) -> Vec<Value> {
+    Vec::new()
+}
